@@ -824,6 +824,8 @@ val into_as_slice : tcfg -> into_it -> elem list m
 
 val into_clone : tcfg -> (z -> z option) -> into_it -> nat -> into_it m
 
+val into_drop_body : tcfg -> into_it -> unit m
+
 val into_drop : tcfg -> into_it -> unit m
 
 type script = z list
